@@ -27,8 +27,8 @@ ASSUMPTIONS = ["contributions are finite-difference VJPs (h=1e-6) of a NumPy re-
                "expression (ops restricted to the smooth element-wise set decided by C01)",
                "retained non-leaf gradients are not asserted (the statement is about leaves and about leaks)"]
 
-UN = ["tanh", "sigmoid", "exp4", "neg", "mulc", "sq"]
-BIN = ["add", "mul", "sub", "addsum"]
+UN = ["tanh", "sigmoid", "exp4", "neg", "mulc", "sq", "getitem", "reshape", "squeeze", "clone", "pow2", "transpose", "flatten", "unbind0", "unbind0"]
+BIN = ["add", "mul", "sub", "addsum", "unbind", "concat", "meanmul", "stackidx", "div1"]
 
 
 @st.composite
@@ -83,12 +83,18 @@ def np_eval(nodes, k, leaf_arrays, cache=None):
             v = -a
         elif op == "mulc":
             v = a * nd["c"]
-        elif op == "sq":
+        elif op in ("sq", "pow2"):
             v = a * a
+        elif op == "getitem":
+            v = a * 1.5
+        elif op in ("reshape", "squeeze", "clone", "transpose", "flatten", "unbind0"):
+            v = a.copy()
         else:
             b = np_eval(nodes, nd["b"], leaf_arrays, cache)
             v = {"add": lambda: a + b, "mul": lambda: a * b, "sub": lambda: a - b,
-                 "addsum": lambda: a.sum() + b}[op]()
+                 "addsum": lambda: a.sum() + b, "unbind": lambda: a * 2.0 + b, "concat": lambda: a.copy(),
+                 "meanmul": lambda: a.mean() * b, "stackidx": lambda: b * 3.0 - a,
+                 "div1": lambda: a / (b * b + 1.0)}[op]()
     cache[k] = v
     return v
 
@@ -108,8 +114,42 @@ def sg_build(nd, tens):
         return a * nd["c"]
     if op == "sq":
         return a * a
+    if op == "pow2":
+        return a ** 2
+    if op == "getitem":
+        return a[...] * 1.5
+    if op == "reshape":
+        return a.reshape((-1,)).reshape(tuple(a.shape))
+    if op == "squeeze":
+        return a.unsqueeze(0).squeeze(0)
+    if op == "clone":
+        return a.clone()
+    if op == "transpose":
+        return a.transpose(0, -1).transpose(-1, 0) if a.ndim >= 1 else a.clone()
+    if op == "flatten":
+        return a.flatten().reshape(tuple(a.shape))
+    if op == "unbind0":
+        if a.ndim == 0:
+            return a.clone()
+        return sg.stack(list(sg.unbind(a, 0)), 0)
     b = tens[nd["b"]]
-    return {"add": lambda: a + b, "mul": lambda: a * b, "sub": lambda: a - b, "addsum": lambda: a.sum() + b}[op]()
+
+    def unbind_():
+        parts = sg.unbind(sg.stack([a, b], 0), 0)
+        return parts[0] * 2.0 + parts[1]
+
+    def concat_():
+        if a.ndim == 0:
+            return sg.concat([a.unsqueeze(0), b.unsqueeze(0)], 0)[0]
+        return sg.concat([a, b], 0)[:a.shape[0]]
+
+    def stackidx_():
+        st_ = sg.stack([a, b], -1)          # (..., 2)
+        return st_[..., 1] * 3.0 - st_[..., 0]
+
+    return {"add": lambda: a + b, "mul": lambda: a * b, "sub": lambda: a - b, "addsum": lambda: a.sum() + b,
+            "unbind": unbind_, "concat": concat_, "meanmul": lambda: a.mean() * b, "stackidx": stackidx_,
+            "div1": lambda: a / (b * b + 1.0)}[op]()
 
 
 def reach(nodes, k, rq, memo):
